@@ -295,6 +295,10 @@ def encoding(
             logger.debug("gamma %s", gamma)
             logger.debug("vSums %s", vSums[index])
             logger.debug("fSums %s", fSums[index])
+        if vSums[index] and not fSums[index]:
+            # no world falsifies the conditional: the revised ranking accepts it whatever
+            # the parameters are, so it contributes no constraint
+            continue
         mv, mf = freshVars(index)
         vMin = minima_encoding(mv, vSums[index])
         fMin = minima_encoding(mf, fSums[index])
